@@ -1274,6 +1274,12 @@ def remove_duplicate_functions(source: str, preserve: Collection[str]) -> str:
     if not delete and not renamings:
         return source
 
+    # Deleting comes first: the positions of the duplicates refer to the text as it is now, and
+    # the uses to be renamed are then looked up in the text that remains
+    if delete:
+        source = processing.remove_nodes(source, delete, root)
+        root = core.parse(source)
+
     names = collections.defaultdict(list)
     for node in core.walk(root, ast.Name):
         names[node.id].append(node)
@@ -1285,8 +1291,6 @@ def remove_duplicate_functions(source: str, preserve: Collection[str]) -> str:
 
     if node_renamings:
         source = _fix_variable_names(source, node_renamings, preserve)
-    if delete:
-        source = processing.remove_nodes(source, delete, root)
 
     return source
 
